@@ -114,6 +114,9 @@ def cases(spec, ctx):
                         "keys": pipes.keys_for(kinds, suffix_first={kinds[-1]}, style="alpha"),
                         "variant": "sfx-last",
                     }
+                    # the documentation allows any string after the first dot, dots included
+                    yield {"work": "accept", "keys": pipes.keys_for(kinds, suffix_first={kinds[idx % len(kinds)]}, style=["dotted", "word"][idx % 2]),
+                           "variant": "sfx-free"}
                 elif idx % 97 == 0:
                     yield {"work": "accept", "keys": pipes.keys_for(kinds, suffix_first=set(kinds)), "variant": "sfx"}
     elif work == "rand":
@@ -161,7 +164,8 @@ def cases(spec, ctx):
                 for ns, sf in variants:
                     yield {
                         "work": "exec",
-                        "keys": pipes.keys_for(kinds, suffix_first=set(kinds) if idx % 3 == 0 else None),
+                        "keys": pipes.keys_for(kinds, suffix_first=set(kinds) if idx % 3 == 0 else ({kinds[idx % len(kinds)]} if idx % 3 == 1 else None),
+                                               style=["num", "dotted", "alpha", "word"][(idx // 3) % 4]),
                         "num_scales": ns,
                         "scale_factor": sf,
                     }
@@ -276,7 +280,7 @@ def run_case(case, ctx):
         m = pipes.new_machine()
         expect = pipes.dfa_accepts(keys)
         ctx.case(["accept", keys], nontrivial=len(keys) >= 2 or not expect,
-                 unique_by_construction=case["variant"] in ("bare", "sfx", "sfx-last"))
+                 unique_by_construction=case["variant"] in ("bare", "sfx", "sfx-last", "sfx-free"))
         tr = trace.Tracer(m)
         try:
             m.check_conf({"pipeline": copy.deepcopy(pipe)}, left_m, right_m)
